@@ -107,6 +107,19 @@ func (p Proxy) ListenAndServe(ctx context.Context) error {
 	errs := make(chan error, expReturns)
 	var closeAll []func() error
 	var closeAllMu sync.Mutex
+	closed := false
+	// register records a listener to be closed on shutdown. A listener that
+	// comes up after the shutdown sweep is closed right away, otherwise nothing
+	// would ever close it and ListenAndServe would wait for it forever.
+	register := func(close func() error) {
+		closeAllMu.Lock()
+		defer closeAllMu.Unlock()
+		if closed {
+			_ = close()
+			return
+		}
+		closeAll = append(closeAll, close)
+	}
 	inflightRequests := make(chan struct{}, p.MaxInflightRequests)
 
 	for _, addr := range addrs {
@@ -115,16 +128,16 @@ func (p Proxy) ListenAndServe(ctx context.Context) error {
 			p.logInfof("Listening on UDP/%s", addr)
 			udp, err := lc.ListenPacket(ctx, "udp", addr)
 			if err == nil {
-				closeAllMu.Lock()
-				closeAll = append(closeAll, udp.Close)
-				closeAllMu.Unlock()
+				register(udp.Close)
 				err = p.serveUDP(udp, inflightRequests)
 			}
-			cancel()
 			if err != nil {
 				err = fmt.Errorf("udp: %w", err)
 			}
+			// Report before cancelling so that the error causing the shutdown
+			// precedes the errors of the listeners closed because of it.
 			errs <- err
+			cancel()
 		}(addr)
 
 		go func(addr string) {
@@ -132,24 +145,25 @@ func (p Proxy) ListenAndServe(ctx context.Context) error {
 			p.logInfof("Listening on TCP/%s", addr)
 			tcp, err := lc.Listen(ctx, "tcp", addr)
 			if err == nil {
-				closeAllMu.Lock()
-				closeAll = append(closeAll, tcp.Close)
-				closeAllMu.Unlock()
+				register(tcp.Close)
 				err = p.serveTCP(tcp, inflightRequests)
 			}
-			cancel()
 			if err != nil {
 				err = fmt.Errorf("tcp: %w", err)
 			}
 			errs <- err
+			cancel()
 		}(addr)
 	}
 
 	<-ctx.Done()
 	errs <- ctx.Err()
+	closeAllMu.Lock()
+	closed = true
 	for _, close := range closeAll {
 		_ = close()
 	}
+	closeAllMu.Unlock()
 	// Wait for the two sockets (+ ctx err) to be terminated and return the
 	// initial error.
 	var err error
